@@ -54,4 +54,20 @@ PROPS = {
         "trusted_base": COMMON_TB + ["u64::to_string is tied to Nat.toDigits 10 by the correspondence only"],
         "assumptions": ["node paths and keys are ASCII in the generated cases"],
     },
+    "C08": {
+        "claimed": False,
+        "lean_props": ["ZarrsModel.Props.C08"],
+        "harness": "c08",
+        "rule": "random operation sequences (4..30 ops; thorough: up to 200) over a hierarchy-shaped universe of 12 keys / 9 prefixes with values of 0..12 bytes and "
+                "in- and out-of-bounds ranges of all three forms, on 11 stores: memory, filesystem (with and without direct I/O, on disk under /verif/work), "
+                "usage-log and performance-metrics adapters, object_store (InMemory, LocalFileSystem) and opendal (Memory, Fs) through the async-to-sync adapter "
+                "and opendal's blocking store, and the zip adapter (archive rebuilt from the state before every read, stored and deflated); the driver advances "
+                "the ordered-map model and accepts for an out-of-bounds ranged read an error or the truncated slice; non-trivial = distinct (store kind, request, outcome) "
+                "with a non-empty result",
+        "nontrivial": lambda l: (" -> some " in l or " -> keys " in l or " -> dir " in l or " -> val " in l) and not l.endswith("~") ,
+        "exhaustive": False,
+        "trusted_base": COMMON_TB + ["third-party back ends (object_store, opendal, zip, OS file system) are only corresponded, not modelled"],
+        "assumptions": ["keys are ASCII; empty values and zero-length ranges are not sent to object_store/opendal back ends (as the property states)"],
+        "timeout": 3000,
+    },
 }
